@@ -105,7 +105,7 @@ def mk_case(nd, data, progs, sched, shared, cache, tags, typed=False):
 
 def typed_cases(rng, nd, data, quick):
     """the same reference loaded as a type that fails and as a type that succeeds, by two threads and within one"""
-    budget = 40 if quick else 600
+    budget = 40 if quick else 200
     refs = [r for r in nd.all_ids() if nd.type_dependent(r)]
     parents = [r for r, n in nd.nodes.items() if len(set(t for (t, _) in n["deps"])) > 1]
     for r in refs:
@@ -130,6 +130,11 @@ def typed_cases(rng, nd, data, quick):
                         allsch, tag = rng.sample(allsch, k), "2x1-sampled"
                     for s in allsch:
                         yield mk_case(nd, data, [[(b, r)], [(g, r)]], s, shared, cache, [tag, "typed"], typed=True)
+                    # scripted: A (failing type) alone then B; B then A; B arrives while A computes (waits on InProcess,
+                    # receives A's error); A arrives while B computes (receives B's value, of another type)
+                    for s in ([0] * 40 + [1] * 40, [1] * 40 + [0] * 40, [0, 0, 1, 1, 1] + [0] * 40 + [1] * 40,
+                              [1, 1, 0, 0, 0] + [1] * 40 + [0] * 40, [0, 0, 0, 1, 1, 1, 0, 1, 0, 1, 0, 1, 0, 1]):
+                        yield mk_case(nd, data, [[(b, r)], [(g, r)]], s, shared, cache, ["scripted", "typed"], typed=True)
                     # sequential histories inside the threads, and a third thread
                     for _ in range(max(2, k // 4)):
                         progs = [[(b, r), (g, r), (b, r)], [(g, r), (b, r)]]
